@@ -844,3 +844,176 @@ mod tests {
         assert_eq!(crate::util::hex(&s.finish()), crate::util::sha256_hex(&long));
     }
 }
+
+// ---------------------------------------------------------------------------------------------
+// Structured rank for large L: GF(2) elimination of the binary rows on bitsets, then the H HDPC
+// rows are reduced against that basis and the rank of the residual is taken over GF(256).
+// (rank over GF(2) of a 0/1 matrix equals its rank over any extension field)
+// ---------------------------------------------------------------------------------------------
+
+/// rank of [LDPC; HDPC; ENC rows for `isis`] over GF(256), L columns.
+pub fn rank_structured(pr: &Params, isis: &[u32]) -> usize {
+    let l = pr.l as usize;
+    let words = (l + 63) / 64;
+    let mut rows: Vec<Vec<u64>> = Vec::with_capacity(pr.s as usize + isis.len());
+    for r in ldpc_rows(pr) {
+        let mut b = vec![0u64; words];
+        for c in r {
+            b[c / 64] ^= 1u64 << (c % 64);
+        }
+        rows.push(b);
+    }
+    for &x in isis {
+        let mut b = vec![0u64; words];
+        for c in enc_indices(pr, tuple(pr, x)) {
+            b[c / 64] ^= 1u64 << (c % 64);
+        }
+        rows.push(b);
+    }
+    // Gauss-Jordan over GF(2): pivot_of_col[c] = index into `basis`
+    let mut basis: Vec<Vec<u64>> = vec![];
+    let mut pivot_cols: Vec<usize> = vec![];
+    let mut col_to_basis: Vec<Option<usize>> = vec![None; l];
+    for mut row in rows {
+        // reduce by existing basis (each basis row has a unique pivot column)
+        for (bi, &pc) in pivot_cols.iter().enumerate() {
+            if row[pc / 64] >> (pc % 64) & 1 == 1 {
+                for w in 0..words {
+                    row[w] ^= basis[bi][w];
+                }
+            }
+        }
+        // find first set bit
+        let mut pc = None;
+        for w in 0..words {
+            if row[w] != 0 {
+                pc = Some(w * 64 + row[w].trailing_zeros() as usize);
+                break;
+            }
+        }
+        if let Some(pc) = pc {
+            // eliminate pc from the existing basis rows (keeps the basis fully reduced)
+            for b in basis.iter_mut() {
+                if b[pc / 64] >> (pc % 64) & 1 == 1 {
+                    for w in 0..words {
+                        b[w] ^= row[w];
+                    }
+                }
+            }
+            col_to_basis[pc] = Some(basis.len());
+            pivot_cols.push(pc);
+            basis.push(row);
+        }
+    }
+    let rb = basis.len();
+    if rb == l {
+        return l;
+    }
+    // reduce the HDPC rows against the (fully reduced) binary basis
+    let free_cols: Vec<usize> = (0..l).filter(|c| col_to_basis[*c].is_none()).collect();
+    let mut resid: Vec<Vec<u8>> = vec![];
+    for h in hdpc_rows(pr) {
+        // residual on free columns: h[f] + sum over pivot cols c of h[c] * basis_c[f]
+        let mut out: Vec<u8> = free_cols.iter().map(|&f| h[f]).collect();
+        for (bi, &pc) in pivot_cols.iter().enumerate() {
+            let coef = h[pc];
+            if coef == 0 {
+                continue;
+            }
+            let b = &basis[bi];
+            for (o, &f) in out.iter_mut().zip(free_cols.iter()) {
+                if b[f / 64] >> (f % 64) & 1 == 1 {
+                    *o ^= coef;
+                }
+            }
+        }
+        resid.push(out);
+    }
+    let mut o = RankOracle::new(free_cols.len());
+    for r in resid {
+        o.insert(r);
+    }
+    rb + o.rank()
+}
+
+/// Rank of the binary part only (LDPC + ENC rows), used to classify fast-path cases.
+pub fn rank_binary(pr: &Params, isis: &[u32]) -> usize {
+    let l = pr.l as usize;
+    let words = (l + 63) / 64;
+    let mut basis: Vec<Option<Vec<u64>>> = vec![None; l];
+    let mut rank = 0;
+    let mut push = |mut row: Vec<u64>, basis: &mut Vec<Option<Vec<u64>>>| {
+        loop {
+            let mut pc = None;
+            for w in 0..words {
+                if row[w] != 0 {
+                    pc = Some(w * 64 + row[w].trailing_zeros() as usize);
+                    break;
+                }
+            }
+            match pc {
+                None => return false,
+                Some(c) => match &basis[c] {
+                    Some(b) => {
+                        for w in 0..words {
+                            row[w] ^= b[w];
+                        }
+                    }
+                    None => {
+                        basis[c] = Some(row);
+                        return true;
+                    }
+                },
+            }
+        }
+    };
+    for r in ldpc_rows(pr) {
+        let mut b = vec![0u64; words];
+        for c in r {
+            b[c / 64] ^= 1u64 << (c % 64);
+        }
+        if push(b, &mut basis) {
+            rank += 1;
+        }
+    }
+    for &x in isis {
+        let mut b = vec![0u64; words];
+        for c in enc_indices(pr, tuple(pr, x)) {
+            b[c / 64] ^= 1u64 << (c % 64);
+        }
+        if push(b, &mut basis) {
+            rank += 1;
+        }
+    }
+    rank
+}
+
+#[cfg(test)]
+mod rank_tests {
+    use super::*;
+
+    #[test]
+    fn structured_rank_agrees_with_dense() {
+        let mut rng = crate::util::SplitMix::new(42);
+        for k in [5u32, 10, 17, 40, 101] {
+            let pr = params(k);
+            for trial in 0..30 {
+                let mut isis: Vec<u32> = (k..pr.kp).collect();
+                let n = k as usize + (trial % 4);
+                let mut esis = std::collections::BTreeSet::new();
+                while esis.len() < n {
+                    esis.insert(rng.below(3 * k as u64 + 50) as u32);
+                }
+                for e in esis {
+                    isis.push(esi_to_isi(&pr, e));
+                }
+                let a = constraint_matrix(&pr, &isis);
+                let mut o = RankOracle::new(pr.l as usize);
+                for r in a {
+                    o.insert(r);
+                }
+                assert_eq!(o.rank(), rank_structured(&pr, &isis), "k={k} trial={trial}");
+            }
+        }
+    }
+}
